@@ -87,7 +87,7 @@ def run(tier, prop='C03'):
     seen = set(); analysed = set(); inv = {}; fam = collections.Counter(); npaths = 0; steps = 0; linked = 0
     for p in paths:
         res = results[p]
-        for b in res['broken']: R.broke(b)
+        for b in res['broken']: R.broke_at(p, b)
         for loc, q in res['inv']: inv[loc] = q
         for f in res['fns']:
             if f['disp'] in seen: continue
